@@ -90,13 +90,14 @@ let () =
     match tokens line with
     | ia :: pa :: ra :: da :: na :: ib :: pb :: rb :: db :: nb :: ops ->
       (try
+       let attempt (coa, cob) =
         let tbl_a : (int, int) Hashtbl.t = Hashtbl.create 7 and tbl_b : (int, int) Hashtbl.t = Hashtbl.create 7 in
         let inadmissible = ref "" in
         let over tbl z = match Hashtbl.find_opt tbl (int_of_z z) with Some e -> z_of_int e | None -> Z0 in
-        let mkc tbl i p r d n = { c_id = id_of_token i; c_prio = z_of_int (int_of_string p);
+        let mkc ?(co = false) tbl i p r d n = { c_id = id_of_token i; c_prio = z_of_int (int_of_string p);
                                   c_preempt = (r = "1"); c_dec = z_of_int (int_of_string d);
-                                  c_nifs = nat_of_int (int_of_string n); c_over = over tbl } in
-        let cs = (mkc tbl_a ia pa ra da na, mkc tbl_b ib pb rb db nb) in
+                                  c_nifs = nat_of_int (int_of_string n); c_over = over tbl; c_coalesce = co } in
+        let cs = (mkc ~co:coa tbl_a ia pa ra da na, mkc ~co:cob tbl_b ib pb rb db nb) in
         (* overflow policy read off the implementation (see header) *)
         let learn w step =
           let c = (match w with A -> fst cs | B -> snd cs) in
@@ -154,7 +155,7 @@ let () =
               | "pD" | "pL" | "pS" | "rl" | "xa" | "xu" -> failwith "op not supported with two groups"
               | _ -> List.iter (fun e -> note e; e1 e; e2 e; resync ()) (events_of_token tok));
              out := (show !s1 !t1 ^ "#" ^ show !s2 !t2) :: !out) ops;
-           print_endline (String.concat " " (List.rev !out))
+           String.concat " " (List.rev !out)
          | _ ->
         let s = ref (finit cs) in
         let out = ref [show !s.f_p []] in
@@ -165,14 +166,21 @@ let () =
         let note e = let (_, tt) = sdecide sf !stl !s.f_p e in stl := tt in
         let rec finish w = if thrs_of w !s <> [] then (ignore (fe (FMicro (w, O))); finish w) in
         let stepno = ref 0 in
+        let moved = ref true in
         List.iter (fun tok ->
           ts := []; probe := []; incr stepno;
           if String.length tok < 3 then failwith ("bad op " ^ tok);
           let w = who_of tok.[2] in
           (match String.sub tok 0 2 with
            | "dn" | "up" | "de" | "xa" | "xu" ->
-             (* only notifications for tracked interfaces reach AdjustPriority *)
-             if tracked (match w with A -> fst cs | B -> snd cs) (nat_of_int (arg tok)) then learn w !stepno
+             (* only notifications for tracked interfaces reach AdjustPriority, and with the coalescing policy only
+                those that move the down count (dry run of the pure model step to see) *)
+             let c = (match w with A -> fst cs | B -> snd cs) in
+             let cnt_of st = (match w with A -> st.f_p.p_a.n_cnt | B -> st.f_p.p_b.n_cnt) in
+             let down = (String.sub tok 0 2 <> "up" && String.sub tok 0 2 <> "xu") in
+             let (s', _) = fstep v cs !s (FCoarse (EIf (w, nat_of_int (arg tok), down))) in
+             moved := (cnt_of s' <> cnt_of !s);
+             if tracked c (nat_of_int (arg tok)) && (not c.c_coalesce || !moved) then learn w !stepno
            | _ -> ());
           (match String.sub tok 0 2 with
            | "pD" ->
@@ -203,7 +211,7 @@ let () =
              (* lock probe: is m.mu held when AdjustPriority is entered (only asked for tracked interfaces) *)
              let k = nat_of_int (arg tok) in
              let c = (match w with A -> fst cs | B -> snd cs) in
-             if tracked c k then
+             if tracked c k && (not c.c_coalesce || !moved) then
                probe := [(match w with A -> "a" | B -> "b") ^ (if v.fix_ia then ":mu=held" else ":mu=free")];
              ignore (fe (FCoarse (EIf (w, k, String.sub tok 0 2 = "xa"))))
            | _ -> List.iter (fun e ->
@@ -211,6 +219,25 @@ let () =
                     ignore (fe (FCoarse e')); stl := ssync tt !s.f_p) (events_of_token tok));
           stl := ssync !stl !s.f_p;
           out := show_p !s.f_p !probe !ts :: !out) ops;
-        print_endline (String.concat " " (List.rev !out) ^ (if !inadmissible = "" then "" else " INADMISSIBLE:" ^ !inadmissible)))
+        String.concat " " (List.rev !out) ^ (if !inadmissible = "" then "" else " INADMISSIBLE:" ^ !inadmissible)) in
+       (* implementation choice "coalesce redundant interface notifications" (cfg.c_coalesce), per node: resolved
+          by the observed output -- the first of the four policies that reproduces the implementation's line *)
+       let impl_line = if !lineno < Array.length impl_lines then impl_lines.(!lineno) else "" in
+       let r0 = attempt (false, false) in
+       let r =
+         if impl_line = "" || r0 = impl_line then r0
+         else begin
+           (* the policy whose line agrees with the implementation's for the longest prefix of steps (a later
+              divergence, e.g. a recorded finding, must not hide the choice) *)
+           let it = Array.of_list (tokens impl_line) in
+           let lcp l =
+             let t = Array.of_list (tokens l) in
+             let n = min (Array.length t) (Array.length it) in
+             let rec go i = if i < n && t.(i) = it.(i) then go (i + 1) else i in go 0 in
+           List.fold_left (fun (best, bl) c ->
+               let r = attempt c in let l = lcp r in if l > bl then (r, l) else (best, bl))
+             (r0, lcp r0) [(true, true); (true, false); (false, true)] |> fst
+         end in
+       print_endline r
       with Failure m -> print_endline ("badcase " ^ m))
     | _ -> print_endline "badline") lines
